@@ -1,12 +1,22 @@
 #!/bin/bash
 # Run the checks that read a file touched by each behaviour-preserving patch under /verif/benign (written by sub-agents that saw only the property
 # text): every one must end without VIOLATION (exit 1 would be a false alarm); UNDECIDED (lost anchor) is tolerated but listed.
+# usage: run_benign.sh [shards]   -- shards run side by side, each with its own build tree (VERIF_BUILD=/verif/build/shard<k>)
 cd /verif || exit 9
-out=build/benign.log; : > $out
-for d in ${@:-benign/*/}; do
-  d=${d%/}; p=$d/patch.diff
-  props=$(python3 tools/props_for_patch.py $p)
-  echo "== $d props: $props" >> $out
-  BASE=baaa8b0 tools/try_seed.sh $p $props >> $out 2>&1
+N=${1:-3}
+ls -d /verif/benign/*/ | sed 's|/$||' > build/benign_list.txt
+for k in $(seq 0 $((N-1))); do
+  (
+    export VERIF_BUILD=/verif/build/shard$k; mkdir -p $VERIF_BUILD
+    out=build/benign_$k.log; : > $out
+    awk -v n=$N -v k=$k 'NR % n == k' build/benign_list.txt | while read d; do
+      p=$d/patch.diff
+      props=$(python3 tools/props_for_patch.py $p)
+      echo "== $d props: $props" >> $out
+      BASE=baaa8b0 tools/try_seed.sh $p $props >> $out 2>&1
+    done
+  ) &
 done
-grep -c "^== " $out; grep -E "VIOLATION|UNDECIDED|PATCH FAILED" $out | cut -c1-200
+wait
+cat build/benign_[0-9]*.log > build/benign.log
+grep -c "^== " build/benign.log; grep -E "VIOLATION|UNDECIDED|PATCH FAILED" build/benign.log | cut -c1-200
